@@ -299,3 +299,43 @@ Definition seq_run (ts : list tmpl) (outs : list outcome) (ps0 : params) : list 
 Definition seq_run_aliased (ts : list tmpl) (outs : list outcome) (ps0 : params) : list event * result :=
   let bes := combine (map bcfg_of ts) outs in
   seq_loop true bes 0 [] ps0 [] (acc_init (List.length bes)).
+
+(* ---------- a backend behind the real HTTP proxy (proxy/http.go NewHTTPProxyDetailed,
+   transport/http/client/status.go): how an HTTP reply becomes the outcome of the step ------ *)
+
+Inductive hmode :=
+| HDefault                     (* DefaultHTTPStatusHandler *)
+| HErrorCode                   (* return_error_code: true *)
+| HDetails (name : string).    (* return_error_details: "<name>" (not empty) *)
+
+(* h_decoded: what the backend's decoder makes of the body (None: it fails; the decoder
+   itself is outside C02) *)
+Record hreply := { h_code : Z; h_body : string; h_enc : string; h_decoded : option obj }.
+
+Definition ok_status (c : Z) : bool := (c =? 200)%Z || (c =? 201)%Z.
+
+(* json tags of HTTPResponseError: http_body and http_body_encoding are omitempty *)
+Definition error_object (code : Z) (body enc : string) : json :=
+  JObj ([("http_status_code", JNum (dec (Z.to_nat code)))]
+        ++ (if str_eqb body "" then [] else [("http_body", JStr body)])
+        ++ (if str_eqb enc "" then [] else [("http_body_encoding", JStr enc)]))%list.
+
+(* 200/201: the decoded body, complete.  Anything else: the plain error, the error carrying
+   the code (its text is the body), or - with details - a response that holds only
+   error_<name> and is NOT complete: for the sequential merger an incomplete answer *)
+Definition http_outcome (m : hmode) (r : hreply) : outcome :=
+  if ok_status (h_code r) then
+    match h_decoded r with
+    | Some d => OResp {| data := Some d; complete := true |}
+    | None => OErr (EOther "decode")
+    end
+  else
+    match m with
+    | HDefault => OErr (EOther "invalid status code")
+    | HErrorCode => OErr (EOther (h_body r))
+    | HDetails n => OResp {| data := Some [("error_" ++ n, error_object (h_code r) (h_body r) (h_enc r))];
+                             complete := false |}
+    end.
+
+Definition seq_run_http (ts : list tmpl) (hs : list (hmode * hreply)) (ps0 : params) : list event * result :=
+  seq_run ts (map (fun x => http_outcome (fst x) (snd x)) hs) ps0.
